@@ -125,10 +125,18 @@ async def scenario(loop, plan, r):
             sim.mode = {"err": "err@nop", "timeout": "timeout@nop"}.get(oc, oc) if v == 4 else oc
             n0 = len(sim.log)
             raised = None
+            stopped = oc == "err:stopped"
+            if stopped:
+                # EZSP is stopped (a reset of the NCP is under way or has failed): the keep-alive cannot even be sent and
+                # fails with an EZSP error - a failed feed like any other
+                sim.mode = "ok"
+                ezsp.stop_ezsp()
             try:
                 await app._watchdog_feed()
             except (asyncio.TimeoutError, Exception) as ex:
                 raised = ex
+            if stopped:
+                ezsp.start_ezsp()
             failure = not oc.startswith("ok")
             if failure:
                 consecutive += 1
@@ -150,7 +158,12 @@ async def scenario(loop, plan, r):
                 r.bad(f"C19:unexpected-exception:{type(raised).__name__}", f"feed {k + 1}: {raised!r}")
                 return
             cmds = [n for _, n, _ in sim.log[n0:]]
-            if v == 4:
+            if stopped:
+                if v != 4:
+                    ordinal += 1
+                want = []
+                r.cls("feed-while-ezsp-stopped")
+            elif v == 4:
                 want = ["nop"]
             else:
                 ordinal += 1
@@ -161,7 +174,7 @@ async def scenario(loop, plan, r):
             if cmds != want:
                 r.bad("C19:wrong-keep-alive-commands", f"feed {k + 1} of {plan}: saw {cmds}, expected {want}")
                 return
-            if want[-1] == "getValue" and int(sim.log[-1][2]["valueId"]) != 0x03 and sim.log[-1][2]["valueId"].name != "VALUE_FREE_BUFFERS":
+            if want and want[-1] == "getValue" and int(sim.log[-1][2]["valueId"]) != 0x03 and sim.log[-1][2]["valueId"].name != "VALUE_FREE_BUFFERS":
                 r.bad("C19:wrong-value-id", f"{sim.log[-1]}")
         r.nontrivial = saw_run or saw_recover
         if saw_run:
@@ -204,7 +217,7 @@ def long_plans(draw):
     seq = []
     while len(seq) < n:
         run = draw(st.integers(0, 7))
-        seq += [draw(st.sampled_from(outs[1:])) for _ in range(run)]
+        seq += [draw(st.sampled_from(outs[1:] + (["err:stopped"] if v == 4 else []))) for _ in range(run)]
         seq += ["ok"] * draw(st.integers(1, 40 if period == 180 else 3))
     plan = {"v": v, "period": period, "seq": seq[:n]}
     if draw(st.booleans()):
@@ -227,6 +240,15 @@ def _worker_between(ctx, job):
             ctx.check(plan, check(plan), sample=(pos == 3 and kind == "msg"))
 
 
+def _worker_stopped(ctx, job):
+    """Every sequence of length 6 over {ok, one ordinary failure, feed while EZSP is stopped}."""
+    v, first = job
+    outs = ["ok", "timeout" if v == 4 else "timeout@counters", "err:stopped"]
+    for rest in itertools.product(outs, repeat=5):
+        plan = {"v": v, "seq": [outs[first]] + list(rest)}
+        ctx.check(plan, check(plan), sample=(first == 2 and rest[:2] == ("err:stopped", "ok")))
+
+
 def _worker_long(ctx, n):
     ctx.search(long_plans(), check, max_examples=n)
 
@@ -241,4 +263,7 @@ def run(ctx):
     ctx.parallel(_worker_exh, jobs)
     ctx.exhaustive[f"all outcome sequences: v4 length {L4}, v8/v13 length {LN}"] = True
     ctx.parallel(_worker_between, [(v, kind) for v in (4, 8, 13, 14) for kind in ("msg", "sent", "status", "cmd")])
+    # only protocol version 4 keeps alive with a plain command (nop), which the stopped EZSP object refuses at once; the
+    # counter read of later versions is a handler-level helper that does not pass through that gate (not judged here)
+    ctx.parallel(_worker_stopped, [(4, f) for f in range(3)])
     ctx.parallel(_worker_long, [12] * 16 if quick else [300] * 16)
